@@ -40,6 +40,7 @@ import (
 	"github.com/xuperchain/xupercore/kernel/consensus/base"
 	cctx "github.com/xuperchain/xupercore/kernel/consensus/context"
 	"github.com/xuperchain/xupercore/kernel/consensus/def"
+	kmock "github.com/xuperchain/xupercore/kernel/consensus/mock"
 	"github.com/xuperchain/xupercore/kernel/contract"
 	"github.com/xuperchain/xupercore/kernel/ledger"
 	nctx "github.com/xuperchain/xupercore/kernel/network/context"
@@ -1544,6 +1545,159 @@ func c16MinerPath(t *testing.T, c *hx.Collector) {
 }
 
 // ---------------------------------------------------------------------------------------------
+// upgrade proposals through the pluggable-consensus layer: a REJECTED proposal entitles nobody
+// ---------------------------------------------------------------------------------------------
+
+type c16Proposal struct {
+	Name   string `json:"name"`             // consensus name of the proposal
+	Miner  int    `json:"miner"`            // ring key named by the proposal
+	Height int    `json:"height"`           // "height" argument of the kernel method
+	Broken string `json:"broken,omitempty"` // "" | noargs | badjson | noname | noconfig
+}
+
+type c16UpgradeCase struct {
+	Props []c16Proposal `json:"proposals"`
+}
+
+// c16RunUpgrade: a chain that runs single with miner Ring[0] (real PluggableConsensus over the repository's fake
+// ledger); upgrade proposals are executed through the registered kernel method. Oracle (metamorphic, no rule
+// transcribed): after a proposal the method itself REFUSED (error response, nothing written), the verdict on every
+// candidate block - each ring key x a few heights - and the reported running consensus are what they were before.
+func c16RunUpgrade(k c16UpgradeCase, o *c16Obs) *c16Fail {
+	conf := func(miner string) map[string]interface{} {
+		return map[string]interface{}{"version": "0", "miner": miner, "period": "3000"}
+	}
+	gj, _ := json.Marshal(conf(hx.Ring[0].Address))
+	genesis, _ := json.Marshal(def.ConsensusConfig{ConsensusName: "single", Config: string(gj)})
+	leg := kmock.NewFakeLedger(genesis)
+	cc := c16ConsCtx(leg, hx.Ring[0])
+	reg := &kmock.FakeRegistry{M: map[string]contract.KernMethod{}}
+	cc.Contract = &kmock.FakeManager{R: reg}
+	pc, err := consensus.NewPluggableConsensus(cc)
+	if err != nil {
+		return c16Failf("setup", "NewPluggableConsensus: %v", err)
+	}
+	update := reg.M["updateConsensus"]
+	if update == nil {
+		return c16Failf("setup", "updateConsensus is not registered")
+	}
+	xc := c16XCtx()
+	verdicts := func() (string, *c16Fail) {
+		out := ""
+		for _, h := range []int64{3, 9, 40} {
+			for i := 0; i < 3; i++ {
+				key := hx.Ring[i]
+				id := c16Hash(fmt.Sprintf("c16-upgrade-%d-%d", h, i))
+				sig, err := hx.Crypt.SignECDSA(key.Priv, id)
+				if err != nil {
+					return "", c16Failf("setup", "%v", err)
+				}
+				blk := &kmock.FakeBlock{Proposer: key.Address, Height: h, Blockid: id, ConsensusStorage: []byte{}, Timestamp: h * 3000 * c16Ms, PublicKey: key.PubJSON, Sign: sig}
+				ok, _ := pc.CheckMinerMatch(xc, blk)
+				out += fmt.Sprintf("%d/K%d=%v ", h, i, ok)
+				if ok {
+					o.eval("upgrade-accept:accepted")
+				} else {
+					o.eval("upgrade-accept:rejected")
+				}
+			}
+		}
+		st, err := pc.GetConsensusStatus()
+		if err != nil {
+			return "", c16Failf("setup", "GetConsensusStatus: %v", err)
+		}
+		return out + fmt.Sprintf("running=(item %d, from height %d, %s)", st.GetStepConsensusIndex(), st.GetConsensusBeginInfo(), st.GetConsensusName()), nil
+	}
+	before, f := verdicts()
+	if f != nil {
+		return f
+	}
+	if !strings.Contains(before, "3/K0=true") || strings.Contains(before, "K1=true") {
+		return c16Failf("upgrade", "single with miner K0: verdicts %s", before)
+	}
+	store := map[string]map[string][]byte{}
+	for i, p := range k.Props {
+		args := map[string][]byte{}
+		body := map[string]interface{}{"name": p.Name, "config": conf(hx.Ring[p.Miner].Address)}
+		switch p.Broken {
+		case "noname":
+			delete(body, "name")
+		case "noconfig":
+			delete(body, "config")
+		}
+		raw, _ := json.Marshal(body)
+		if p.Broken == "badjson" {
+			raw = raw[:len(raw)/2]
+		}
+		if p.Broken != "noargs" {
+			args["args"] = raw
+		}
+		args["height"] = []byte(fmt.Sprint(p.Height))
+		kctx := kmock.NewFakeKContext(args, store)
+		resp, uerr := func() (r *contract.Response, e error) {
+			defer func() {
+				if x := recover(); x != nil {
+					e = fmt.Errorf("PANIC %v", x)
+				}
+			}()
+			return update(kctx)
+		}()
+		if uerr != nil && strings.HasPrefix(uerr.Error(), "PANIC") {
+			// a plug-in constructor that panics on a configuration it cannot read (pow: DESIGN 9.8) is not a matter
+			// of C16; whoever recovers from it must still find the entitled producers unchanged
+			o.tag("upgrade:constructor-panicked(observation)")
+		}
+		if uerr == nil && resp != nil && resp.Status < 400 {
+			o.tag("upgrade:proposal-accepted-not-judged")
+			return nil // the chain adopted another configuration: what it entitles is the business of the other sub-checks
+		}
+		o.tag("upgrade:proposal-refused")
+		after, f := verdicts()
+		if f != nil {
+			return f
+		}
+		if after != before {
+			return c16Failf("upgrade", "proposal %d %+v was REFUSED by updateConsensus (%v) and still changed who may produce: before %s, after %s", i, p, uerr, before, after)
+		}
+	}
+	return nil
+}
+
+func c16Upgrades(t *testing.T, c *hx.Collector) {
+	agg := c16NewAgg()
+	defer agg.flush(c)
+	logged := 0
+	c.Check(t, "upgrade-proposals", hx.N(200, 3000), func(cs *hx.Case) {
+		rt := cs.RT()
+		var k c16UpgradeCase
+		n := rapid.IntRange(1, 3).Draw(rt, "nprops")
+		for i := 0; i < n; i++ {
+			k.Props = append(k.Props, c16Proposal{
+				Name:   rapid.SampledFrom([]string{"single", "single", "single", "tdpos", "xpoa", "pow", "nope", ""}).Draw(rt, "name"),
+				Miner:  rapid.IntRange(0, 2).Draw(rt, "miner"),
+				Height: rapid.SampledFrom([]int{0, 1, 2, 8, 9, 10, 39, 41}).Draw(rt, "height"),
+				Broken: rapid.SampledFrom([]string{"", "", "", "", "noargs", "badjson", "noname", "noconfig"}).Draw(rt, "broken"),
+			})
+		}
+		cs.Op(k)
+		o := c16NewObs(1)
+		f := c16RunUpgrade(k, o)
+		if o.tags["upgrade:proposal-refused"] > 0 {
+			o.nontrivial(k)
+			cs.Nontrivial()
+		}
+		for tg := range o.tags {
+			cs.Label(tg)
+		}
+		agg.add(c, o)
+		if f != nil {
+			_ = logged
+			cs.Failf("%s", f.Error())
+		}
+	})
+}
+
+// ---------------------------------------------------------------------------------------------
 // the test
 // ---------------------------------------------------------------------------------------------
 
@@ -2039,7 +2193,7 @@ func TestC16(t *testing.T) {
 	for _, sub := range []struct {
 		name string
 		run  func(*testing.T, *hx.Collector)
-	}{{"schedules", c16Schedules}, {"single", c16Single}, {"compact", c16Compact}, {"isproofed", c16IsProofed}, {"pow-chain", c16PowChain}, {"validator-change", c16Changes}, {"miner-path", c16MinerPath}} {
+	}{{"schedules", c16Schedules}, {"single", c16Single}, {"compact", c16Compact}, {"isproofed", c16IsProofed}, {"pow-chain", c16PowChain}, {"validator-change", c16Changes}, {"miner-path", c16MinerPath}, {"upgrade-proposals", c16Upgrades}} {
 		start := time.Now() // reported only
 		sub.run(t, c)
 		t.Logf("C16 %s: %.1fs", sub.name, time.Since(start).Seconds())
@@ -2070,6 +2224,18 @@ func init() {
 			return nil
 		}
 		return f
+	}
+	replayers["C16/upgrade-proposals"] = func(raw json.RawMessage, fs *hx.FindingSet) error {
+		var items []c16UpgradeCase
+		if err := json.Unmarshal(raw, &items); err != nil {
+			return err
+		}
+		for _, k := range items {
+			if f := c16RunUpgrade(k, c16NewObs(0)); f != nil {
+				return f
+			}
+		}
+		return nil
 	}
 	reg("miner-path", func(raw json.RawMessage) error {
 		var k c16MinerCase
